@@ -166,6 +166,30 @@ def _operand(spec: str, rank: int = 1, eager: bool = False, salt: int = 0):
     return ndx.array(shape=("N",) + (2,) * (rank - 1) if rank else (), dtype=impl.dt(spec))
 
 
+def promote_np_row(job):
+    """dtype `promote(array, NumPy operand)` casts to: NumPy scalars and arrays are strongly typed, so the
+    answer must be result_type(d, e).  form in np-scalar | np-0d | np-1d; also through a public binary function."""
+    from . import impl
+    import numpy as np
+    from ndonnx._utility import promote
+    d, e, form, first, via = job
+    a = _operand(d)
+    if e == "utf8":
+        v = np.str_("x") if form == "np-scalar" else np.array("x" if form == "np-0d" else ["x"])
+    else:
+        v = np.dtype(e).type(1) if form == "np-scalar" else np.array(1 if form == "np-0d" else [1], dtype=e)
+    def call():
+        if via == "promote":
+            res = promote(v, a) if first else promote(a, v)
+            dts = {impl.dtname(r.dtype) for r in res}
+            if len(dts) != 1:
+                raise RuntimeError(f"promote returned different dtypes {dts}")
+            return res[0]
+        f = getattr(impl.ndx, via)
+        return f(v, a) if first else f(a, v)
+    return outcome(call)
+
+
 def fn_row(job):
     """job = (fn, operand specs, mode) with mode in lazy|lazy0|lazy2|eager."""
     from . import impl
